@@ -213,8 +213,13 @@ def cfg_sig(cfg):
 def gen_rewards(rs, n, kind):
     if kind in ("nonneg", "dyadic") and rs.integers(8) == 0:
         # hostile magnitudes: the same exactly summable values scaled by a large or tiny power of two
-        scale = float(pick(rs, [2.0 ** 20, 2.0 ** -20, 2.0 ** 40]))
-        return [v * scale for v in gen_rewards(rs, n, kind + "_plain")]
+        mode = int(rs.integers(5))
+        base = gen_rewards(rs, n, kind + "_plain")
+        if mode == 4:
+            # near-equal but different values: a large offset plus a small exactly representable part
+            return [2.0 ** 33 + v for v in base] if kind == "nonneg" else [(2.0 ** 33 + v) * (-1.0 if rs.integers(2) else 1.0) for v in base]
+        scale = float([2.0 ** 20, 2.0 ** -20, 2.0 ** 40, 2.0 ** -40][mode])
+        return [v * scale for v in base]
     kind = kind.replace("_plain", "")
     if kind == "binary":
         return [float(v) for v in rs.integers(0, 2, n)]
